@@ -32,6 +32,8 @@ from rustlex import (LexError, brace_depths, line_of, line_start, mask, match_cl
                      next_body_brace, split_top_level)
 
 REPO = os.environ.get("VERIF_REPO", "/repo")
+# repository file of the item whose rewrite rules are being applied (for rules that look other items up in that file)
+CURRENT_FILE = [None]
 
 
 class ExtractError(Exception):
@@ -2193,6 +2195,62 @@ def rule_R43(text, applied):
     return text
 
 
+def rule_R44(text, applied, arg=None):
+    """explicit `drop(G);` of a guard value `let G = TYPE { f: E, .. };` (arg: TYPE) -> the body of `impl Drop for TYPE`
+    (taken from the same repository file) inlined at the `drop(G);` statement with `self.f` replaced by E -- an explicit
+    `drop(g)` runs `Drop::drop(&mut g)` right there; the `let` statement itself only moves values and is removed.  A
+    reference-typed field initialised with `&PLACE` is replaced by PLACE (auto-deref).  NOT covered: the implicit drop when
+    the enclosing future is dropped at an `.await` (the very reason such guards exist) -- the sync projection has no such
+    event.  A guard that is not dropped explicitly is outside the subset."""
+    src = Source.get(CURRENT_FILE[0])
+    dm = re.search(r"impl(?:<[^>]*>)?\s+Drop\s+for\s+" + re.escape(arg) + r"\b[^{]*\{", src.masked)
+    if not dm:
+        raise ExtractError(f"R44: no `impl Drop for {arg}` in {CURRENT_FILE[0]} (lost anchor)")
+    iend = match_close(src.masked, dm.end() - 1)
+    fm = re.search(r"fn\s+drop\s*\(\s*&mut\s+self\s*\)\s*\{", src.masked[dm.end():iend])
+    if not fm:
+        raise ExtractError("R44: Drop::drop not found")
+    bo = dm.end() + fm.end() - 1
+    bc = match_close(src.masked, bo)
+    body = strip_attrs_and_docs(src.text[bo + 1:bc])
+    m_text = mask(text)
+    lm = re.search(r"\blet\s+(\w+)\s*=\s*" + re.escape(arg) + r"\s*\{", m_text)
+    if not lm:
+        raise ExtractError(f"R44: no `let g = {arg} {{..}}` (lost anchor)")
+    lc = match_close(m_text, lm.end() - 1)
+    semi = m_text.index(";", lc)
+    fields = {}
+    from rustlex import split_top_level
+    for part in split_top_level(mask(text[lm.end():lc]), text[lm.end():lc], ","):
+        part = part.strip()
+        if not part:
+            continue
+        if ":" in part:
+            k, v = part.split(":", 1)
+            fields[k.strip()] = v.strip()
+        else:
+            fields[part] = part
+    g = lm.group(1)
+    text2 = text[:lm.start()] + _keep_newlines(text[lm.start():semi + 1], "") + text[semi + 1:]
+    m2 = mask(text2)
+    dms = list(re.finditer(r"\bdrop\(\s*" + re.escape(g) + r"\s*\)\s*;", m2))
+    if len(dms) != 1:
+        raise ExtractError(f"R44: expected exactly one explicit `drop({g});` (found {len(dms)}) -- outside the subset")
+    probe = body
+    for k in fields:
+        probe = re.sub(r"\bself\s*\.\s*" + re.escape(k) + r"\b", "", probe)
+    if re.search(r"\bself\b", mask(probe)):
+        raise ExtractError("R44: the Drop body mentions self other than through the guard's fields")
+    for k, v in fields.items():
+        v2 = v[1:].strip() if v.startswith("&") and not v.startswith("&mut") else v
+        body = re.sub(r"\bself\s*\.\s*" + re.escape(k) + r"\b", v2, body)
+    inl = "{ " + " ".join(body.split()) + " }"
+    d = dms[0]
+    text2 = text2[:d.start()] + _keep_newlines(text2[d.start():d.end()], inl) + text2[d.end():]
+    applied.append(f"R44({arg})")
+    return text2
+
+
 def rule_R20(text, applied):
     """visitor call -> index loop: `RECV.visit_literals(A, B, |x| { BODY });` becomes
     `{ let lits_ = vclause_literals(&RECV, A, B); let mut li_: usize = 0; while li_ < lits_.len() { let x = lits_[li_];
@@ -2325,7 +2383,7 @@ RULES = {
     "R20": rule_R20, "R21": rule_R21, "R7stackrev": rule_R7stackrev, "R7pairs": rule_R7pairs, "R7indexmap": rule_R7indexmap, "R12frozen": rule_R12frozen, "R40": rule_R40, "R39": rule_R39, "R7intoenum": rule_R7intoenum, "substws": rule_substws, "R38": rule_R38, "R9enc": rule_R9enc, "R37": rule_R37, "R36": rule_R36, "R35": rule_R35, "R16oiw": rule_R16oiw, "R9blockon": rule_R9blockon, "R34": rule_R34, "R31": rule_R31, "R30": rule_R30, "R26it": rule_R26it, "R29": rule_R29, "R7own": rule_R7own, "R28": rule_R28, "R27": rule_R27, "R8all": rule_R8all, "R16od": rule_R16od, "R10site": rule_R10site,
     "R1": rule_R1, "R2": rule_R2, "R2ref": rule_R2ref, "R3": rule_R3, "R4": rule_R4, "R5": rule_R5,
     "R8max": rule_R8max, "R8cmpmax": rule_R8cmpmax, "R8resize_none": rule_R8resize_none, "R9": rule_R9, "R8position": rule_R8position, "R8rotate": rule_R8rotate, "R12refcell": rule_R12refcell,
-    "R8slice": rule_R8slice, "R7iter": rule_R7iter, "R8bitget": rule_R8bitget, "R8intonext": rule_R8intonext, "R8find": rule_R8find, "R41": rule_R41, "R43": rule_R43, "R42": rule_R42, "R8rposition": rule_R8rposition, "R8contains": rule_R8contains, "R12cell": rule_R12cell, "R8resize_veccap": rule_R8resize_veccap, "R8collectid": rule_R8collectid, "R8index": rule_R8index, "subst": rule_subst,
+    "R8slice": rule_R8slice, "R7iter": rule_R7iter, "R8bitget": rule_R8bitget, "R8intonext": rule_R8intonext, "R8find": rule_R8find, "R41": rule_R41, "R44": rule_R44, "R43": rule_R43, "R42": rule_R42, "R8rposition": rule_R8rposition, "R8contains": rule_R8contains, "R12cell": rule_R12cell, "R8resize_veccap": rule_R8resize_veccap, "R8collectid": rule_R8collectid, "R8index": rule_R8index, "subst": rule_subst,
     "R7ref": rule_R7ref, "R6": rule_R6, "R16": rule_R16, "R14q": rule_R14q, "R7stack": rule_R7stack, "R18": rule_R18, "R8frozenindex": rule_R8frozenindex, "R7range": rule_R7range, "R14err": rule_R14err, "R7array": rule_R7array, "R17": rule_R17,
     "R13": rule_R13, "R14": rule_R14, "R2set": rule_R2set, "R8first": rule_R8first, "R7": rule_R7, "R10": rule_R10, "R11": rule_R11,
 }
@@ -2471,6 +2529,7 @@ def apply_callblocks(src, selector, start, end, raw, sections, emitter):
 
 
 def build_fn(src: Source, selector, opts, sections, emitter: Emitter, unit_rules_log):
+    CURRENT_FILE[0] = src.rel
     start, ob, end, kind, hdr = src.locate_fn(selector)
     raw = src.text[start:end]
     first_line = line_of(src.text, start)
